@@ -88,7 +88,7 @@ func runC12(c *Ctx) {
 				}
 				for _, wc := range ctxCalls {
 					if calleeName(wc.Common()) == "context.WithCancel" {
-						c.obI("R12.1", wc, "no-deadline-only-without-timeout", guardedBy(wc, nil, factNotPositive(isT)), "the context without a deadline is derived only when the request's timeout is zero", "the deadline-less derivation is reachable with a non-zero request timeout")
+						c.obI("R12.1", wc, "no-deadline-only-without-timeout", guardedBy(wc, nil, factEqInt(isT, 0, true)), "the context without a deadline is derived only when the request's timeout is exactly zero (a negative timeout — a budget already spent — still yields a deadline, one that has passed)", "the deadline-less derivation is reachable with a non-zero request timeout")
 					}
 				}
 			}
@@ -466,6 +466,47 @@ func runC12(c *Ctx) {
 		}
 	}
 	ruleDrainingReadTransparent(c, "R12.5")
+	// the end-seen flag is raised by Read alone (where its condition is checked above): no other method or function of
+	// the client — a WriteTo/ReadFrom shortcut, say — declares the body exhausted
+	for _, fn := range p.LibFuncs("rt/client") {
+		root := fn
+		for root.Parent() != nil {
+			root = root.Parent()
+		}
+		if fnName(root) == "(*rt/client.drainingReadCloser).Read" || isTransparent(root) {
+			continue
+		}
+		for _, ci := range callsIn(fn, "sync/atomic.StoreUint32", "(*sync/atomic.Bool).Store", "(*sync/atomic.Uint32).Store", "sync/atomic.CompareAndSwapUint32", "(*sync/atomic.Bool).CompareAndSwap") {
+			if ci.Parent() != fn {
+				continue
+			}
+			recv, a := callArgs(ci.Common())
+			target := recv
+			if target == nil && len(a) > 0 {
+				target = a[0]
+			}
+			if _, isFlag := fieldAddrOf(target, "rt/client.drainingReadCloser", "seenEOF"); !isFlag {
+				continue
+			}
+			last := ci.Common().Args[len(ci.Common().Args)-1]
+			if k, isK := constInt(last); isK && k == 0 {
+				continue // a reset
+			}
+			if b, isB := constBool(last); isB && !b {
+				continue
+			}
+			c.obD("R12.5", ci, "end-seen-raised-by-Read-only", false, "the end-seen flag of the draining wrapper is raised in Read only (on io.EOF or an empty read)", "raised in "+fnName(fn))
+		}
+		for _, st := range fieldStores(fn, "rt/client.drainingReadCloser", "seenEOF") {
+			if k, isK := constInt(st.Val); isK && k == 0 {
+				continue
+			}
+			if _, isAl := st.Addr.(*ssa.FieldAddr).X.(*ssa.Alloc); isAl {
+				continue // initialising a wrapper being built
+			}
+			c.obD("R12.5", st, "end-seen-raised-by-Read-only", false, "the end-seen flag of the draining wrapper is raised in Read only (on io.EOF or an empty read)", "written in "+fnName(fn))
+		}
+	}
 	rt := p.Fn("(*rt/client.keepAliveTransport).RoundTrip")
 	for _, st := range fieldStores(rt, "net/http.Response", "Body") {
 		var rtc *ssa.Call
